@@ -336,4 +336,76 @@ theorem sinv_runFrom {v : Svc} {tr : List Event} (h : SInv v) (hi : Inv v.t tr) 
 theorem sinv_run (sops : List SOp) : SInv (svcRun sops).1 ∧ Inv (svcRun sops).1.t (svcRun sops).2 :=
   sinv_runFrom sinv_init inv_init sops
 
+/-! ### the owned check timer is due within one period
+
+`exp` of the owned timer is set by `create` (`now + 1 s`) and by the tail of `Do` (`now + 1 s`) only;
+time only moves forward: the runtime timer of the owned check timer is never set for an instant more
+than one period ahead.  Together with `SInv.busy` / `Hist.alive`: an outstanding request is looked at
+within one period (plus the loop's drain). -/
+
+def DueSoon (v : Svc) : Prop := v.own ≠ 0 → (v.t.tm v.own).exp ≤ v.t.now + checkPeriod
+
+theorem expire_exp (s : State) (x j : Nat) :
+    ((expire s x).1.tm j).exp = (s.tm j).exp ∧ (expire s x).1.now = s.now := by
+  unfold expire
+  by_cases e : j = x
+  · subst e; split <;> (try split) <;> (try split) <;> simp [State.setTm, State.push, upd]
+  · split <;> (try split) <;> (try split) <;> simp [State.setTm, State.push, upd, e]
+
+theorem due_step {v : Svc} (h : SInv v) (hw : WF v.t) (hdu : DueSoon v) (op : SOp) : DueSoon (svcStep v op).1 := by
+  cases op with
+  | req k =>
+    by_cases h0 : v.own = 0
+    · have hc := h.idle
+      simp only [DueSoon, svcStep, opsOf, h0, if_true, runFrom, step, hc, Option.isSome_none, Bool.false_eq_true, if_false]
+      intro _; simp [create, checkPeriod, State.alloc, State.setTm, upd]
+    · simp only [DueSoon, svcStep, opsOf, h0, if_false, runFrom]; exact hdu
+  | reqAgain k =>
+    by_cases h0 : v.own = 0
+    · have hc := h.idle
+      simp only [DueSoon, svcStep, opsOf, h0, if_true, runFrom, step, hc, Option.isSome_none, Bool.false_eq_true, if_false]
+      intro _; simp [create, checkPeriod, State.alloc, State.setTm, upd]
+    · simp only [DueSoon, svcStep, opsOf, h0, if_false, runFrom]; exact hdu
+  | resp k => simp only [DueSoon, svcStep, opsOf, runFrom]; exact hdu
+  | expire x =>
+    simp only [DueSoon, svcStep, opsOf, runFrom, step]
+    intro hn; rw [(expire_exp v.t x v.own).1, (expire_exp v.t x v.own).2]; exact hdu hn
+  | advance d =>
+    simp only [DueSoon, svcStep, opsOf, runFrom, step]
+    intro hn; have := hdu hn; simp only [State.tick]; omega
+  | tick =>
+    have hc := h.idle
+    cases hq : v.t.queue with
+    | nil =>
+      have he : entered v = false := by simp [entered, hq]
+      simp only [DueSoon, svcStep, he, tick_nil hc hq]
+      exact hdu
+    | cons hd tl =>
+      cases hcc : (v.t.tm hd).cancelled with
+      | true =>
+        have he : entered v = false := by simp [entered, hq, hcc]
+        simp only [DueSoon, svcStep, he, tick_skip hc hq hcc]
+        exact hdu
+      | false =>
+        obtain ⟨hown, hn0⟩ := head_is_own h hw hq hcc
+        subst hown
+        obtain ⟨om, op, oc, ol, os⟩ := h.owned hn0
+        have he : entered v = true := by simp [entered, hq, hcc, hc]
+        cases hp : v.pending.isEmpty with
+        | true =>
+          simp only [DueSoon, svcStep, he, hp, if_true, tick_free hc hq hcc os om ol hp]
+          intro hne; simp at hne
+        | false =>
+          simp only [DueSoon, svcStep, he, hp, Bool.false_eq_true, if_false, tick_keep hc hq hcc os op hp]
+          intro _; simp [State.setTm, State.setCur, State.pop, State.setScript, upd]
+
+theorem due_runFrom {v : Svc} {tr : List Event} (h : SInv v) (hi : Inv v.t tr) (hdu : DueSoon v) (sops : List SOp) :
+    DueSoon (svcRunFrom v tr sops).1 := by
+  induction sops generalizing v tr with
+  | nil => exact hdu
+  | cons op sops ih => exact ih (sinv_step h hi.wf op) (inv_svcStep hi op) (due_step h hi.wf hdu op)
+
+theorem due_run (sops : List SOp) : DueSoon (svcRun sops).1 :=
+  due_runFrom sinv_init inv_init (fun h => absurd rfl h) sops
+
 end Cell2v.TimerSvc
